@@ -158,7 +158,9 @@ class Gen:
         for (gl, gc, o) in outer['segs']:
             if o is not None and o[0] == k:
                 ol = r.randrange(1, max(2, len(olines) + 1))
-                oc = r.randrange(0, len(olines[ol - 1]) + 1) if ol <= len(olines) else 0
+                # point at a character of the original text (the line break counts)
+                width = (len(olines[ol - 1]) + (1 if ol < len(olines) else 0)) if ol <= len(olines) else 0
+                oc = r.randrange(0, width) if width > 0 else 0
                 o = (k, ol, oc, o[3])
             segs.append((gl, gc, o))
         outer['segs'] = segs
@@ -170,7 +172,14 @@ class Gen:
             outer['contents'] = ['' for _ in outer['sources']]
             outer['contents'][k] = original
         inner = self.consistent_map(original)
-        return ('sms', value, name, outer, original if give_orig else None, inner, r.random() < 0.3)
+        if r.random() < 0.4 and inner['sources'] and inner['contents']:
+            # the inner map itself also names the inner file (e.g. a partial identity map)
+            j = r.randrange(0, len(inner['sources']))
+            inner['sources'][j] = inner_name
+            if inner['contents']:
+                inner['contents'][j] = original
+        # the inner source is identified by the SourceMapSource's own name
+        return ('sms', value, inner_name, outer, original if give_orig else None, inner, r.random() < 0.3)
 
     # ---- trees ----
     def leaf(self):
